@@ -1,0 +1,314 @@
+//! Read-only verification hooks, compiled only with `--cfg ggrs_verif`.
+//!
+//! Nothing in here changes the behaviour of the library: the snapshot functions project
+//! internal state into plain serialisable records, the probes wrap crate-private components so
+//! that an external harness can drive them, and the message helpers describe / build packets.
+#![allow(missing_docs)]
+
+use serde::Serialize;
+
+use crate::frame_info::PlayerInput;
+use crate::input_queue::InputQueue;
+use crate::network::messages::{
+    ChecksumReport, ConnectionStatus, Input, InputAck, Message, MessageBody, MessageHeader,
+    QualityReply, QualityReport, SyncReply, SyncRequest,
+};
+use crate::time_sync::TimeSync;
+use crate::{Config, Frame, InputStatus};
+
+/// Serialise an input value to the bytes the wire format uses.
+pub(crate) fn input_bytes<I: Serialize>(i: &I) -> Vec<u8> {
+    bincode::serialize(i).unwrap_or_default()
+}
+
+#[derive(Debug, Clone, Serialize, PartialEq, Eq)]
+pub struct QueueSnap {
+    pub head: usize,
+    pub tail: usize,
+    pub length: usize,
+    pub first_frame: bool,
+    pub last_added: Frame,
+    pub last_user: Frame,
+    pub first_incorrect: Frame,
+    pub last_requested: Frame,
+    pub delay: usize,
+    pub pred_frame: Frame,
+    pub pred_input: Vec<u8>,
+    pub tail_frame: Frame,
+    /// frame and input bytes of the newest entry (slot before head)
+    pub newest_frame: Frame,
+    pub newest_input: Vec<u8>,
+}
+
+#[derive(Debug, Clone, Serialize, PartialEq, Eq)]
+pub struct SyncSnap {
+    pub current_frame: Frame,
+    pub last_confirmed: Frame,
+    pub last_saved: Frame,
+    pub cells: Vec<Frame>,
+    pub queues: Vec<QueueSnap>,
+}
+
+#[derive(Debug, Clone, Serialize, PartialEq, Eq)]
+pub struct EndpointSnap {
+    pub addr: String,
+    pub handles: Vec<usize>,
+    pub state: String,
+    pub sync_remaining: u32,
+    pub nonces: usize,
+    pub notify_sent: bool,
+    pub event_sent: bool,
+    pub magic: u16,
+    pub remote_magic: u16,
+    pub peer_status: Vec<(bool, Frame)>,
+    pub pending_first: Frame,
+    pub pending_len: usize,
+    pub last_acked: Frame,
+    pub last_recv: Frame,
+    pub recv_min: Frame,
+    pub recv_len: usize,
+    pub local_adv: i32,
+    pub remote_adv: i32,
+    pub avg_adv: i32,
+    pub rtt: u128,
+    pub age_send: i64,
+    pub age_recv: i64,
+    pub age_input_recv: i64,
+    pub age_quality: i64,
+    pub age_sync_req: i64,
+    pub shutdown_in: i64,
+    pub pending_checksums: Vec<Frame>,
+    pub send_queue: usize,
+    pub event_queue: usize,
+}
+
+#[derive(Debug, Clone, Serialize, PartialEq, Eq)]
+pub struct P2PSnap {
+    pub num_players: usize,
+    pub max_prediction: usize,
+    pub sparse: bool,
+    pub disconnect_frame: Frame,
+    pub running: bool,
+    pub status: Vec<(bool, Frame)>,
+    pub next_spectator_frame: Frame,
+    pub next_recommended_sleep: Frame,
+    pub frames_ahead: i32,
+    pub evq: usize,
+    pub pending_local: Vec<usize>,
+    pub outgoing: Vec<(Frame, Vec<usize>)>,
+    pub last_sent_outgoing: Frame,
+    pub checksum_history: Vec<Frame>,
+    pub last_sent_checksum: Frame,
+    pub sync: SyncSnap,
+    pub remotes: Vec<EndpointSnap>,
+    pub spectators: Vec<EndpointSnap>,
+}
+
+#[derive(Debug, Clone, Serialize, PartialEq, Eq)]
+pub struct SpectatorSnap {
+    pub running: bool,
+    pub num_players: usize,
+    pub current_frame: Frame,
+    pub last_recv_frame: Frame,
+    pub max_frames_behind: usize,
+    pub catchup_speed: usize,
+    pub evq: usize,
+    pub host_status: Vec<(bool, Frame)>,
+    /// frame number stored in slot i (player 0) of the ring
+    pub ring: Vec<Frame>,
+    pub host: EndpointSnap,
+}
+
+#[derive(Debug, Clone, Serialize, PartialEq, Eq)]
+pub struct SyncTestSnap {
+    pub num_players: usize,
+    pub max_prediction: usize,
+    pub check_distance: usize,
+    pub checksum_history: Vec<Frame>,
+    pub pending_local: Vec<usize>,
+    pub sync: SyncSnap,
+}
+
+pub(crate) fn status_pairs(v: &[ConnectionStatus]) -> Vec<(bool, Frame)> {
+    v.iter().map(|c| (c.disconnected, c.last_frame)).collect()
+}
+
+// ---------------------------------------------------------------------------------------------
+// probes for crate-private components
+// ---------------------------------------------------------------------------------------------
+
+/// Drives a single [`InputQueue`] from outside the crate.
+pub struct InputQueueProbe<T: Config>(InputQueue<T>);
+
+impl<T: Config> Default for InputQueueProbe<T> {
+    fn default() -> Self {
+        Self::new()
+    }
+}
+
+impl<T: Config> InputQueueProbe<T> {
+    pub fn new() -> Self {
+        Self(InputQueue::new())
+    }
+    pub fn add_input(&mut self, frame: Frame, input: T::Input) -> Frame {
+        self.0.add_input(PlayerInput::new(frame, input))
+    }
+    pub fn input(&mut self, frame: Frame) -> (T::Input, InputStatus) {
+        self.0.input(frame)
+    }
+    pub fn confirmed_input(&self, frame: Frame) -> T::Input {
+        self.0.confirmed_input(frame).input
+    }
+    pub fn set_frame_delay(&mut self, delay: usize) -> Vec<(Frame, T::Input)> {
+        self.0
+            .set_frame_delay(delay)
+            .into_iter()
+            .map(|pi| (pi.frame, pi.input))
+            .collect()
+    }
+    pub fn reset_prediction(&mut self) {
+        self.0.reset_prediction()
+    }
+    pub fn discard_confirmed_frames(&mut self, frame: Frame) {
+        self.0.discard_confirmed_frames(frame)
+    }
+    pub fn first_incorrect_frame(&self) -> Frame {
+        self.0.first_incorrect_frame()
+    }
+    pub fn snapshot(&self) -> QueueSnap {
+        self.0.verif_snap()
+    }
+}
+
+/// Drives a [`TimeSync`] window from outside the crate.
+#[derive(Default)]
+pub struct TimeSyncProbe(TimeSync);
+
+impl TimeSyncProbe {
+    pub fn new() -> Self {
+        Self(TimeSync::new())
+    }
+    pub fn advance_frame(&mut self, frame: Frame, local_adv: i32, remote_adv: i32) {
+        self.0.advance_frame(frame, local_adv, remote_adv)
+    }
+    pub fn average_frame_advantage(&self) -> i32 {
+        self.0.average_frame_advantage()
+    }
+}
+
+/// The input codec (delta + RLE) as used by the protocol.
+pub mod codec {
+    pub fn encode(reference: &[u8], inputs: &[Vec<u8>]) -> Vec<u8> {
+        crate::network::compression::encode(reference, inputs.iter())
+    }
+    pub fn decode(reference: &[u8], data: &[u8]) -> Result<Vec<Vec<u8>>, String> {
+        crate::network::compression::decode(reference, data).map_err(|e| e.to_string())
+    }
+}
+
+// ---------------------------------------------------------------------------------------------
+// packets: description and construction
+// ---------------------------------------------------------------------------------------------
+
+/// A transparent view of a [`Message`].
+#[derive(Debug, Clone, Serialize, PartialEq, Eq)]
+pub enum MsgDesc {
+    SyncRequest { nonce: u32 },
+    SyncReply { nonce: u32 },
+    Input {
+        status: Vec<(bool, Frame)>,
+        disconnect_requested: bool,
+        start_frame: Frame,
+        ack_frame: Frame,
+        bytes: Vec<u8>,
+    },
+    InputAck { ack_frame: Frame },
+    QualityReport { frame_advantage: i16, ping: u128 },
+    QualityReply { pong: u128 },
+    ChecksumReport { frame: Frame, checksum: u128 },
+    KeepAlive,
+}
+
+pub fn describe_message(msg: &Message) -> (u16, MsgDesc) {
+    let d = match &msg.body {
+        MessageBody::SyncRequest(b) => MsgDesc::SyncRequest {
+            nonce: b.random_request,
+        },
+        MessageBody::SyncReply(b) => MsgDesc::SyncReply {
+            nonce: b.random_reply,
+        },
+        MessageBody::Input(b) => MsgDesc::Input {
+            status: status_pairs(&b.peer_connect_status),
+            disconnect_requested: b.disconnect_requested,
+            start_frame: b.start_frame,
+            ack_frame: b.ack_frame,
+            bytes: b.bytes.clone(),
+        },
+        MessageBody::InputAck(b) => MsgDesc::InputAck {
+            ack_frame: b.ack_frame,
+        },
+        MessageBody::QualityReport(b) => MsgDesc::QualityReport {
+            frame_advantage: b.frame_advantage,
+            ping: b.ping,
+        },
+        MessageBody::QualityReply(b) => MsgDesc::QualityReply { pong: b.pong },
+        MessageBody::ChecksumReport(b) => MsgDesc::ChecksumReport {
+            frame: b.frame,
+            checksum: b.checksum,
+        },
+        MessageBody::KeepAlive => MsgDesc::KeepAlive,
+    };
+    (msg.header.magic, d)
+}
+
+pub fn build_message(magic: u16, desc: &MsgDesc) -> Message {
+    let body = match desc {
+        MsgDesc::SyncRequest { nonce } => MessageBody::SyncRequest(SyncRequest {
+            random_request: *nonce,
+        }),
+        MsgDesc::SyncReply { nonce } => MessageBody::SyncReply(SyncReply {
+            random_reply: *nonce,
+        }),
+        MsgDesc::Input {
+            status,
+            disconnect_requested,
+            start_frame,
+            ack_frame,
+            bytes,
+        } => MessageBody::Input(Input {
+            peer_connect_status: status
+                .iter()
+                .map(|(d, f)| ConnectionStatus {
+                    disconnected: *d,
+                    last_frame: *f,
+                })
+                .collect(),
+            disconnect_requested: *disconnect_requested,
+            start_frame: *start_frame,
+            ack_frame: *ack_frame,
+            bytes: bytes.clone(),
+        }),
+        MsgDesc::InputAck { ack_frame } => MessageBody::InputAck(InputAck {
+            ack_frame: *ack_frame,
+        }),
+        MsgDesc::QualityReport {
+            frame_advantage,
+            ping,
+        } => MessageBody::QualityReport(QualityReport {
+            frame_advantage: *frame_advantage,
+            ping: *ping,
+        }),
+        MsgDesc::QualityReply { pong } => MessageBody::QualityReply(QualityReply { pong: *pong }),
+        MsgDesc::ChecksumReport { frame, checksum } => {
+            MessageBody::ChecksumReport(ChecksumReport {
+                frame: *frame,
+                checksum: *checksum,
+            })
+        }
+        MsgDesc::KeepAlive => MessageBody::KeepAlive,
+    };
+    Message {
+        header: MessageHeader { magic },
+        body,
+    }
+}
